@@ -17,7 +17,7 @@ import (
 	"github.com/AdguardTeam/urlfilter/rules"
 )
 
-func init() { gens["c01.matchall"] = genC01 }
+func init() { gens["c01.matchall"] = c01Gen }
 
 var (
 	c01ListIDs = []int{1, 2, 3, 7, 1000, 2147483647}
@@ -30,8 +30,8 @@ var (
 	c01Short = []string{"ad", "/ad", "ads", "/a/", "^ad^", "x", "_", "/b?", ".js", "pop", "|ws", "ws:", "wss:", "|http", "http", "|https://", "|http://", "https:/", "|ws://", "ws://", "|wss:/"}
 )
 
-// genC01RuleText: the rule kinds named by the property.
-func genC01RuleText(r *rng) string {
+// c01GenRuleText: the rule kinds named by the property.
+func c01GenRuleText(r *rng) string {
 	d := pick(r, poolDomains)
 	switch r.n(12) {
 	case 0, 1: // shared-window long shortcuts
@@ -84,7 +84,7 @@ type c01Scenario struct {
 	note    string
 }
 
-func buildC01Scenario(r *rng) *c01Scenario {
+func c01BuildScenario(r *rng) *c01Scenario {
 	nLists := 1 + r.n(4)
 	nRules := 1 + r.n(12)
 	if r.chance(1, 4) {
@@ -99,7 +99,7 @@ func buildC01Scenario(r *rng) *c01Scenario {
 		if len(all) > 0 && r.chance(1, 8) {
 			t = pick(r, all) // duplicate rule text (same or another list)
 		} else {
-			t = genC01RuleText(r)
+			t = c01GenRuleText(r)
 		}
 		if _, err := rules.NewNetworkRule(t, 1); err != nil {
 			i--
@@ -184,7 +184,7 @@ func c01Request(r *rng, sc *c01Scenario) *rules.Request {
 	return q
 }
 
-func sortedTextSet(ts []string) string {
+func bSortedTextSet(ts []string) string {
 	seen := map[string]bool{}
 	var u []string
 	for _, t := range ts {
@@ -202,15 +202,15 @@ func sortedTextSet(ts []string) string {
 	return "(" + strings.Join(items, ",") + ")"
 }
 
-func genC01(r *rng, n int, w *bufio.Writer) {
+func c01Gen(r *rng, n int, w *bufio.Writer) {
 	for i := 0; i < n; {
-		sc := buildC01Scenario(r)
+		sc := c01BuildScenario(r)
 		if len(sc.nets) == 0 {
 			continue
 		}
 		for j := 0; j < 6 && i < n; j, i = j+1, i+1 {
 			q := c01Request(r, sc)
-			ans := guardStr(func() string { return sortedTextSet(texts(sc.engine.MatchAll(q))) })
+			ans := guardStr(func() string { return bSortedTextSet(texts(sc.engine.MatchAll(q))) })
 			var pats []string
 			for _, f := range sc.nets {
 				if p := wpat(f, q.URL, q.Hostname); p != "" {
